@@ -2137,6 +2137,8 @@ class Symex:
                 self.unsupported(node, f"itertools.{short}")
         if short == "repeat" and name in ("repeat", "itertools.repeat") and len(args) == 2 and isinstance(args[1], int):
             return [args[0]] * args[1]
+        if short == "repeat" and name in ("repeat", "itertools.repeat") and len(args) == 1 and not kw:
+            return _RepeatSeq(args[0])      # unbounded: read lazily by zip / for / next
         if short == "starmap" and len(args) == 2 and not isinstance(args[1], T):
             return [self.call_value(args[0], list(self.iterate(x, node)), {}, node) for x in self.iterate(args[1], node)]
         if short == "accumulate" and name in ("accumulate", "itertools.accumulate") and args and not isinstance(args[0], T):
@@ -2206,6 +2208,10 @@ class Symex:
                     ("list", "tuple", "enumerate", "zip", "set", "sorted", "reversed", "sum", "min", "max")
                     and not (name in ("min", "max") and len(args) > 1)
                     and not (name in ("sum", "enumerate") and i > 0) else a for i, a in enumerate(args)]
+            if name == "zip" and any(isinstance(c, _CountSeq) for c in conv) and not all(isinstance(c, _CountSeq) for c in conv):
+                # unbounded sequences (count, repeat) are read as far as the bounded arguments reach
+                m = min(len(c) for c, a in zip(conv, args) if not isinstance(c, _CountSeq) and not isinstance(a, (T, Obj)))
+                conv = [[c[i] for i in range(m)] if isinstance(c, _CountSeq) else c for c in conv]
             if name == "zip":
                 lens = [len(c) for c, a in zip(conv, args) if not isinstance(a, (T, Obj))]
                 if lens:
@@ -2562,6 +2568,17 @@ class _CountSeq(list):
 
     def __bool__(self):
         return True
+
+
+class _RepeatSeq(_CountSeq):
+    """itertools.repeat(value): the same value, unbounded."""
+
+    def __init__(self, value):
+        super().__init__()
+        self.value = value
+
+    def __getitem__(self, k):
+        return self.value
 
 
 class _Deque(list):
